@@ -115,7 +115,14 @@ pub fn case_fn(_sub: &str, case: &Case, stats: &mut Stats) -> Result<(), String>
     // later releases), which is not grex's to answer for.
     let vm = regex_automata::nfa::thompson::pikevm::PikeVM::new(&p).map_err(|e| format!("pattern {:?} does not compile: {}", p, e))?;
     let mut cache = vm.create_cache();
-    let re = regex::Regex::new(&p).map_err(|e| format!("pattern {:?} does not compile: {}", p, e))?;
+    let re = match crate::lang::compile_regex(&p) {
+        Ok(r) => r,
+        Err(e) if e.starts_with("RESOURCE") => {
+            stats.inconclusive("pattern too big for the engine even with raised limits", || json!({"tcs": case.tcs, "cfg": cfg.tag()}));
+            return Ok(());
+        }
+        Err(e) => return Err(format!("pattern {:?} does not compile: {}", p, e)),
+    };
     for t in &case.tcs {
         let m = vm.find(&mut cache, t.as_str()).map(|m| (m.start(), m.end()));
         let m_meta = re.find(t).map(|m| (m.start(), m.end()));
